@@ -49,13 +49,19 @@ def plan(tier, seed):
               prior=bool(rng.random() < 0.25),
               spec=pick(rng, ["geo", "geo", "cluster", "repeat", "identity-ish"]),
               cond=float(10 ** rng.uniform(0, 2 if big else 3)),
-              x0=pick(rng, ["zero", "rand"]),
+              x0=pick(rng, ["zero", "rand", "rand", "alt", "zero-mean"]),
               P=pick(rng, ["none", "none", "jacobi", "hpd", "inverse", "identity", "buffered"]),
               decoy=bool(rng.random() < 0.3),
               A=pick(rng, ["linop", "func"]),
               mi=pick(rng, ["1", "2", "n-1", "n", "n+2"]),
               tol=pick(rng, [0.0, 0.0, 1e-6]),
               layout=pick(rng, ["vec", "col"]))
+    # mixed precision: the caller's x is single precision, the right-hand side double
+    for i in range(40 if quick else 500):
+        n = int(rng.integers(2, 13))
+        P.add("cg-mixed", n=n, cplx=bool(rng.random() < 0.5), cond=float(10 ** rng.uniform(0, 2)),
+              x0=pick(rng, ["zero", "rand"]), A=pick(rng, ["linop", "func"]),
+              P=pick(rng, ["none", "jacobi"]), xb=pick(rng, ["c64-c128", "f32-f64", "c64-f64"]))
     for i in range(80 if quick else 1200):
         P.add("breakdown", n=int(rng.integers(1, 9)), cplx=bool(rng.random() < 0.5),
               kind=pick(rng, ["negdef", "indef", "singular", "zero"]),
@@ -131,6 +137,14 @@ def run_cg(case):
     M = hpd(rng, n, cplx, case["spec"], case["cond"]) * ms
     b = crandn(rng, [n], dt) * bs
     x0 = np.zeros(n, dt) if case["x0"] == "zero" else crandn(rng, [n], dt) * (bs / ms)
+    if case["x0"] == "alt":
+        # non-zero initial guesses whose entries cancel exactly: alternating +-c, ...
+        x0 = (x0[0] * (-1.0) ** np.arange(n)).astype(dt)
+        if n % 2:
+            x0[-1] = 0
+    elif case["x0"] == "zero-mean":
+        # ... and zero-mean integers
+        x0 = (np.arange(n) - (n - 1) / 2.0).astype(dt) * 2 * (bs / ms)
     # right-hand sides with structure: zero, an eigenvector of A (Krylov space of dimension
     # one: the solution after a single update, exact zero residual afterwards), a one-hot
     # vector, and an initial guess that already is the solution
@@ -406,7 +420,66 @@ def run_breakdown(case):
     return held(sig, {"updates": nupd, "breakdowns": broke}, nupd + 1, True)
 
 
+def run_mixed(case):
+    """Caller's x in single precision, b (and A) in double: the solution is still written into
+    the caller's array (in-place same-kind cast), to single-precision accuracy."""
+    import sigpy as sp
+    rng = rng_for(case)
+    n = case["n"]
+    xb = case["xb"]
+    cplx_sys = xb != "f32-f64" and (case["cplx"] or xb == "c64-c128")
+    if xb == "c64-f64":
+        cplx_sys = False
+    M = hpd(rng, n, cplx_sys, "geo", case["cond"])
+    bdt = np.complex128 if cplx_sys else np.float64
+    b = crandn(rng, [n], bdt)
+    xdt = np.float32 if xb == "f32-f64" else np.complex64
+    x0 = np.zeros(n, xdt) if case["x0"] == "zero" else crandn(rng, [n], xdt)
+    col = case["A"] == "linop"
+    shape = [n, 1] if col else [n]
+    Aop = sp.linop.MatMul(shape, M) if col else (lambda v: M @ v)
+    Pop = None
+    if case["P"] == "jacobi":
+        d = (1 / np.real(np.diag(M)))
+        Pop = sp.linop.Multiply(shape, d.reshape(shape)) if col else (lambda v: d * v)
+    x = x0.reshape(shape).copy()
+    bb = b.reshape(shape).copy()
+    sig = "cg-mixed|%s|%s|%s|%s" % (xb, case["x0"], "linop" if col else "func", case["P"])
+    wit = dict(case)
+    try:
+        alg = sp.alg.ConjugateGradient(Aop, bb, x, P=Pop, max_iter=3 * n, tol=0)
+        k = 0
+        while not alg.done():
+            alg.update()
+            k += 1
+            if alg.x is not x:
+                return violated(sig, "alg.x is no longer the caller's (single-precision) array "
+                                "at update %d" % k, wit, mech="not-in-place")
+            if k > 3 * n + 2:
+                return violated(sig, "loop did not stop", wit, mech="no-stop")
+    except Exception as e:
+        return inconclusive("mixed-precision start rejected: %s: %s" % (
+            type(e).__name__, str(e)[:100]), sig="cg-mixed-rejected")
+    if x.dtype != xdt:
+        return violated(sig, "the caller's array changed its element type", wit,
+                        mech="not-in-place")
+    xstar = np.linalg.solve(M, b)
+    e0 = anorm(M, x0.astype(bdt) - xstar)
+    en = anorm(M, x.ravel().astype(bdt) - xstar)
+    obs = {"err/e0": en / max(e0, 1e-300)}
+    kap = float(np.linalg.cond(M))
+    if not en <= 1e-4 * kap * (e0 + anorm(M, xstar)):
+        return violated(sig, "the caller's array does not hold the solution after %d updates: "
+                        "A-norm error %.3g (initial %.3g)" % (k, en, e0), wit,
+                        mech="mixed-not-written", obs=obs)
+    if not np.array_equal(bb.ravel(), b):
+        return violated(sig, "right-hand side modified", wit, mech="mutated-b")
+    return held(sig, obs, 3, True)
+
+
 def run_case(case):
+    if case["gen"] == "cg-mixed":
+        return run_mixed(case)
     if case["gen"] == "cg":
         return run_cg(case)
     return run_breakdown(case)
